@@ -602,11 +602,16 @@ def _gen_job(args):
     t0 = time.time()
     target = materialise(target)
     try:
+        _fn, _mod, _cls, h0, lines0 = find_function(target['function'])
+    except Exception:  # noqa
+        h0, lines0 = None, None
+    info0 = dict(function=target['function'], source_hash=h0, lines=list(lines0) if lines0 else None)
+    try:
         ex, paths, info = generate(target, C.REG)
     except Unsupported as e:
-        return dict(target=target_id(target), status='unsupported', reason=str(e), info=dict(function=target['function']))
+        return dict(target=target_id(target), status='unsupported', reason=str(e), info=info0)
     except Exception:  # noqa
-        return dict(target=target_id(target), status='error', reason=traceback.format_exc()[-2000:], info=dict(function=target['function']))
+        return dict(target=target_id(target), status='error', reason=traceback.format_exc()[-2000:], info=info0)
     jobs = []
     for name, hyps, goal, meta in ex.obls:
         if meta.get('trivial'):
@@ -732,7 +737,11 @@ def run_property(pid, proof_cfg, tier, seed):
                 crashes.append(dict(fn='proof-layer', tb=f'{tid}: engine rejects unchanged source that it accepted at baseline: {r["reason"]}'))
             continue
         if r['status'] == 'error':
-            crashes.append(dict(fn='proof-layer', tb=f'{tid}: {r["reason"]}'))
+            if b.get('status') == 'ok' and b.get('source_hash') != r['info'].get('source_hash'):
+                # the function changed and the generator (or a contract that names its locals) cannot follow: undecided, not a fault
+                undecided.append(dict(target=tid, reason='generator error on changed source: ' + r['reason'][-300:]))
+            else:
+                crashes.append(dict(fn='proof-layer', tb=f'{tid}: {r["reason"]}'))
             continue
         if not r['obligations']:
             crashes.append(dict(fn='vacuity', tb=f'{tid}: zero obligations generated'))
